@@ -723,7 +723,36 @@ func (in *Interp) execLoop(loop ast.Stmt, st *State, label string) []result {
 			starts = append(starts, r.st)
 		}
 	}
-	if fs != nil && fs.Post != nil {
+	// variables the post statement advances from their own value (i++, i += 2, i = i*2) are abstracted at the loop
+	// head; one that is re-fetched (x = next()) keeps the value the call gave it
+	selfUpdating := func(post ast.Stmt) bool {
+		switch x := post.(type) {
+		case *ast.IncDecStmt:
+			return true
+		case *ast.AssignStmt:
+			if x.Tok != token.ASSIGN {
+				return true
+			}
+			self := false
+			for _, l := range x.Lhs {
+				lid, ok := l.(*ast.Ident)
+				if !ok {
+					return true
+				}
+				for _, r := range x.Rhs {
+					ast.Inspect(r, func(n ast.Node) bool {
+						if id, ok := n.(*ast.Ident); ok && in.info().Uses[id] != nil && in.info().Uses[id] == in.info().Uses[lid] {
+							self = true
+						}
+						return true
+					})
+				}
+			}
+			return self
+		}
+		return true
+	}
+	if fs != nil && fs.Post != nil && selfUpdating(fs.Post) {
 		ast.Inspect(fs.Post, func(n ast.Node) bool {
 			if id, ok := n.(*ast.Ident); ok {
 				if o := in.info().Uses[id]; o != nil {
